@@ -38,7 +38,7 @@ def threshold_lists():
     """(class, thresholds)"""
     out = [("single", [2.0]), ("single-neg", [-1.5]), ("single-zero", [0.0]),
            ("inc2", [1.0, 3.0]), ("eq2", [2.0, 2.0]), ("dec2", [3.0, 1.0]),
-           ("inc3", [0.0, 2.0, 5.0]), ("inc3-eq", [1.0, 1.0, 4.0]), ("dec3", [5.0, 2.0, 0.0]), ("mixed3", [1.0, 4.0, 2.0])]
+           ("inc3", [0.0, 2.0, 5.0]), ("large", [101325.0]), ("large2", [99000.5, 101325.0]), ("inc3-eq", [1.0, 1.0, 4.0]), ("dec3", [5.0, 2.0, 0.0]), ("mixed3", [1.0, 4.0, 2.0])]
     return out
 
 
@@ -47,7 +47,10 @@ def probe_values(ts):
     u = sorted(set(ts))
     vals = [("below", u[0] - 1.0)]
     for i, t in enumerate(u):
+        eps = 4e-6 * max(abs(t), 1.0)          # distinguishable from t, but "close" to it in a tolerant comparison
+        vals.append(("just-below", t - eps))
         vals.append(("equal", t))
+        vals.append(("just-above", t + eps))
         if i + 1 < len(u):
             vals.append(("between", (t + u[i + 1]) / 2.0))
     vals.append(("above", u[-1] + 1.0))
@@ -114,7 +117,7 @@ def run_api(desc, ctx):
                     for (vcls, x), e, rv, mv in zip(probes, exp, vals, mask):
                         ctx.count("within_checked")
                         ok = (e is None and (mv or not rv)) or (e is not None and not mv and bool(rv) == e)
-                        ctx.case("%s|%s|%s|within-%s" % (b, tcls, vcls, form), vcls in ("equal", "nan", "+inf", "-inf"),
+                        ctx.case("%s|%s|%s|within-%s" % (b, tcls, vcls, form), vcls in ("equal", "just-below", "just-above", "nan", "+inf", "-inf"),
                                  {"bin": b, "thresholds": ts, "event": i, "value": x, "form": form, "documented": e})
                         if not ok:
                             infinite_end = vcls in ("+inf", "-inf") and e is True and not mv and not rv
@@ -135,7 +138,7 @@ def run_api(desc, ctx):
                         ctx.violation("apply_threshold-mutates-input", "apply_threshold modified its argument", {"bin": b})
                     for (vcls, x), e, rv in zip(probes, exp, res.tolist()):
                         ctx.count("apply_threshold_checked")
-                        ctx.case("%s|%s|%s|apply_threshold-%s" % (b, tcls, vcls, form), vcls in ("equal", "nan", "+inf", "-inf"))
+                        ctx.case("%s|%s|%s|apply_threshold-%s" % (b, tcls, vcls, form), vcls in ("equal", "just-below", "just-above", "nan", "+inf", "-inf"))
                         ok = (e is None and rv != rv) or (e is not None and rv == (1.0 if e else 0.0))
                         if not ok:
                             ctx.violation("apply_threshold-truth-table|%s" % b,
